@@ -20,6 +20,8 @@ Clauses(r) ==
   \cup If(r.answer = "newer" /\ ~r.err /\ r.ret # r.subj + 3, "C19_verified_newer_head_is_returned")
   \cup If(r.headReqs # 1, "C19_stale_head_triggers_exactly_one_head_request")
   \cup If(r.stored, "C03_refused_header_never_stored")
+  \cup If(r.answer \in {"forgedNext", "forgedFar"} /\ (r.stored \/ ~r.retCanon \/ (r.again # 0 /\ ~r.againCanon)),
+          "C15_candidate_without_a_verifiable_path_is_refused")
 
 Init == l = 1
 Next == /\ l <= Len(Trace)
